@@ -253,6 +253,13 @@ fn separate_rules(text: &str) -> Result<Vec<String>, String> {
         Some(msg) => { return Err(msg); },
     }
 
+    // Text which is left over is a fact or rule without its final
+    // period. It must not be left out silently.
+    if rule_str.trim().len() > 0 {
+        let msg = format!("Missing period at end of: {}", rule_str.trim());
+        return Err(msg);
+    }
+
     return Ok(rules);
 
 } // separate_rules
